@@ -834,6 +834,7 @@ pub fn run(tier: Tier, seed: u64) -> i32 {
         }
     });
 
+    super::c18::sanitizer_summary(&ev, "C17");
     for d in DECODERS {
         ev.floor(&format!("inputs past the length framing: {d:?}"), ev.bucket_get(&format!("framed.{d:?}")), tier.pick(150, 500));
     }
